@@ -10,6 +10,7 @@ is bounded. Payload tokens are opaque (conversion is checked by the direct oracl
 -/
 import XlModel.Lemmas.Grid4
 import XlModel.Lemmas.GridPayload
+import XlModel.Lemmas.GridLinks
 import XlModel.Lemmas.Bstr
 import XlModel.Props.C20
 
@@ -654,6 +655,56 @@ theorem case_insensitive (s : Sheet) (h : Dense s.rows) (name : List Char) (ci r
     (observed (getCell (step s (.set k ci.toNat ri.toNat (.tv t v))).1 ci.toNat ri.toNat)).v = v :=
   ⟨XlModel.Props.C20.upper_same_cell name ci ri hn, XlModel.Props.C20.spellings_same_cell name ci ri hn,
    (last_writer_wins s h k ci.toNat ri.toNat t v hc hr ha).2.2⟩
+
+/-! ## hyperlinks -/
+
+/-- clause "SetCellHyperLink … reads back exactly the last payload", with the merge redirect: after
+`SetCellHyperLink(cell, link)` every cell that is redirected to the same anchor — the cell itself, in any
+accepted spelling, and every cell of the merged range containing it — reports `link` (whatever links were
+set before, on this or other cells) -/
+theorem link_last_writer_wins (ms : List MObj) (ls : Links) (c r : Nat) (loc : Tok) (c' r' : Nat)
+    (hc : 1 ≤ c ∧ 1 ≤ r) (hc' : 1 ≤ c' ∧ 1 ≤ r') (ha : 1 ≤ (anchor ms c r).1 ∧ 1 ≤ (anchor ms c r).2)
+    (hsame : anchor ms c' r' = anchor ms c r) :
+    (setLink ms ls c r loc).2 = .ok ∧
+    getLink ms (setLink ms ls c r loc).1 c' r' = some (some loc) := by
+  have h0 : ¬ (c = 0 ∨ r = 0) := by omega
+  have h1 : ¬ ((anchor ms c r).1 = 0 ∨ (anchor ms c r).2 = 0) := by omega
+  have h0' : ¬ (c' = 0 ∨ r' = 0) := by omega
+  simp only [setLink, getLink, h0, h1, h0', hsame, if_false, lookup_upsert_self, and_self]
+
+/-- clause "no write changes any other cell", for links: cells redirected to a different anchor keep what
+`GetCellHyperLink` reported for them -/
+theorem link_frame (ms : List MObj) (ls : Links) (c r : Nat) (loc : Tok) (c' r' : Nat)
+    (hne : anchor ms c' r' ≠ anchor ms c r) :
+    getLink ms (setLink ms ls c r loc).1 c' r' = getLink ms ls c' r' := by
+  unfold setLink
+  split
+  · rfl
+  · simp only
+    split
+    · rfl
+    · unfold getLink
+      split
+      · rfl
+      · simp only
+        split
+        · rfl
+        · rw [lookup_upsert_other _ _ _ _ hne]
+
+/-- removing the link of a cell (`linkType "None"`) removes it for the whole merged range and for nothing else -/
+theorem link_remove (ms : List MObj) (ls : Links) (c r c' r' : Nat)
+    (hc : 1 ≤ c ∧ 1 ≤ r) (hc' : 1 ≤ c' ∧ 1 ≤ r') (ha : 1 ≤ (anchor ms c r).1 ∧ 1 ≤ (anchor ms c r).2)
+    (ha' : 1 ≤ (anchor ms c' r').1 ∧ 1 ≤ (anchor ms c' r').2) :
+    getLink ms (unsetLink ms ls c r).1 c' r' =
+      if anchor ms c' r' = anchor ms c r then some none else getLink ms ls c' r' := by
+  have h0 : ¬ (c = 0 ∨ r = 0) := by omega
+  have h1 : ¬ ((anchor ms c r).1 = 0 ∨ (anchor ms c r).2 = 0) := by omega
+  have h0' : ¬ (c' = 0 ∨ r' = 0) := by omega
+  have h1' : ¬ ((anchor ms c' r').1 = 0 ∨ (anchor ms c' r').2 = 0) := by omega
+  simp only [unsetLink, getLink, h0, h1, h0', h1', if_false]
+  by_cases hs : anchor ms c' r' = anchor ms c r
+  · simp only [hs, if_true, lookup_filter_self]
+  · simp only [hs, if_false, lookup_filter_other _ _ _ hs]
 
 /-! ## non-vacuity -/
 
